@@ -56,7 +56,8 @@ fn gen_c15(o: &mut Out, tier: &str, seed: u64) {
     }
     o.op("type", "ix type -");
     for (pti, dsz, _) in PT_SIZES {
-        for len in [0usize, 1, 2, dsz - 1, dsz, dsz + 1, dsz + 2, 2 * dsz] {
+        // input = discriminator byte + payload: nominal is 1 + dsz; also whole multiples of the payload size
+        for len in [0usize, 1, 2, dsz - 1, dsz, dsz + 1, dsz + 2, 2 * dsz, 2 * dsz + 1, 2 * dsz + 2, 3 * dsz + 1, dsz + 33] {
             let d = r.bytes(len);
             o.op("data", &format!("ix data {} {}", pti, hex(&d)));
         }
@@ -77,7 +78,7 @@ fn gen_c16(o: &mut Out, tier: &str, seed: u64) {
                 o.op("encode", &format!("state encode {} {} {} {}", pti, hex(&auth), tb, hex(&ctx)));
             }
             let nominal = 33 + csz;
-            for len in [0usize, 1, 32, 33, 34, nominal - 1, nominal, nominal + 1, 2 * nominal] {
+            for len in [0usize, 1, 32, 33, 34, nominal - 1, nominal, nominal + 1, 2 * nominal, 2 * nominal - 1, 3 * nominal, nominal + 33, 66] {
                 let mut d = r.bytes(len);
                 if len > 32 && r.below(2) == 0 {
                     d[32] = r.below(14) as u8;
